@@ -110,71 +110,80 @@ func (w *World) verifyUnit(u *Unit) *Exec {
 // checkFrame: every heap map that changed must be covered by the modifies clause
 // (for objects that existed at entry).
 func (e *Exec) checkFrame(fr *Frame, env *SpecEnv, fc *FuncContract, out *State) {
-	preEnv := &SpecEnv{e: e, fr: fr, st: fr.entry, old: fr.entry, vars: fr.params, oldVars: fr.params}
-	targets, _ := e.resolveModifies(preEnv, fc)
-	byHeap := map[string][]modTarget{}
-	for _, t := range targets {
-		byHeap[t.heap] = append(byHeap[t.heap], t)
-	}
 	var names []string
 	for k := range out.heap {
 		names = append(names, k)
 	}
 	sort.Strings(names)
+	for _, h := range names {
+		f, ok := e.frameFormula(fr, out, h)
+		if !ok {
+			continue
+		}
+		e.sc.oblig(out.reach, f, fmt.Sprintf("%s#frame.%s", e.unit, h), "frame", "frame: "+h+" changes only where the modifies clause allows", "")
+	}
+}
+
+func (e *Exec) frameTargets(fr *Frame) map[string][]modTarget {
+	if fr.frameT != nil {
+		return fr.frameT
+	}
+	fr.frameT = map[string][]modTarget{}
+	if fr.fc == nil {
+		return fr.frameT
+	}
+	preEnv := &SpecEnv{e: e, fr: fr, st: fr.entry, old: fr.entry, vars: fr.params, oldVars: fr.params}
+	targets, _ := e.resolveModifies(preEnv, fr.fc)
+	for _, t := range targets {
+		fr.frameT[t.heap] = append(fr.frameT[t.heap], t)
+	}
+	return fr.frameT
+}
+
+// frameFormula: "heap map h differs from its entry value only where the modifies clause allows,
+// for objects that existed at entry". ok=false if there is nothing to state.
+func (e *Exec) frameFormula(fr *Frame, st *State, h string) (string, bool) {
+	if fr.fc == nil || fr.fc.ModAll || fr.fc.Flags["noframe"] != "" || fr.entry == nil {
+		return "", false
+	}
+	if h == "G_alloc" || strings.HasPrefix(h, "G_visited") || strings.HasPrefix(h, "GB_signalled") {
+		return "", false
+	}
+	cur := e.hget(st, h)
+	old := e.hget(fr.entry, h)
+	if cur == old {
+		return "", false
+	}
+	ts := e.frameTargets(fr)[h]
+	for _, t := range ts {
+		if t.ref == "" {
+			return "", false
+		}
+	}
+	srt := e.heapSort[h]
+	if !strings.HasPrefix(srt, "(Array ") {
+		return eq(cur, old), true
+	}
 	a0 := e.hget(fr.entry, "G_alloc")
 	e.sc.declFun("root", []string{"Int"}, "Int")
-	for _, h := range names {
-		if h == "G_alloc" || strings.HasPrefix(h, "G_visited") || strings.HasPrefix(h, "GB_signalled") {
-			continue
-		}
-		cur := e.hget(out, h)
-		old := e.hget(fr.entry, h)
-		if cur == old {
-			continue
-		}
-		ts := byHeap[h]
-		whole := false
-		for _, t := range ts {
-			if t.ref == "" {
-				whole = true
-			}
-		}
-		if whole {
-			continue
-		}
-		srt := e.heapSort[h]
-		name := fmt.Sprintf("%s#frame.%s", e.unit, h)
-		msg := "frame: " + h + " changes only where the modifies clause allows"
-		if !strings.HasPrefix(srt, "(Array ") {
-			e.sc.oblig(out.reach, eq(cur, old), name, "frame", msg, "")
-			continue
-		}
-		q := e.sc.freshName("q.r")
-		keySort := "Int"
-		if strings.HasPrefix(h, "G_held") {
-			// lock set must be restored unless listed
-		}
-		var excl []string
-		for _, t := range ts {
-			if t.lo == "" {
-				excl = append(excl, fmt.Sprintf("(not (= %s %s))", q, t.ref))
-			}
-		}
-		existed := e.existedAtEntry(q, a0)
-		if strings.HasPrefix(h, "G_") || strings.HasPrefix(h, "GU_") || strings.HasPrefix(h, "GB_") || strings.HasPrefix(h, "HP_") {
-			existed = "true"
-		}
-		body := implies(and(append([]string{existed}, excl...)...), eq(sel(cur, q), sel(old, q)))
-		f := fmt.Sprintf("(forall ((%s %s)) %s)", q, keySort, body)
-		// partial array regions
-		for _, t := range ts {
-			if t.lo != "" {
-				j := e.sc.freshName("q.j")
-				f = and(f, fmt.Sprintf("(forall ((%s Int)) (=> (or (< %s %s) (>= %s %s)) (= (select (select %s %s) %s) (select (select %s %s) %s))))", j, j, t.lo, j, t.hi, cur, t.ref, j, old, t.ref, j))
-			}
-		}
-		e.sc.oblig(out.reach, f, name, "frame", msg, "")
+	q := e.sc.freshName("q.r")
+	var excl []string
+	for _, t := range ts {
+		excl = append(excl, fmt.Sprintf("(not (= %s %s))", q, t.ref))
 	}
+	existed := e.existedAtEntry(q, a0)
+	if strings.HasPrefix(h, "G_") || strings.HasPrefix(h, "GU_") || strings.HasPrefix(h, "GB_") || strings.HasPrefix(h, "HP_") {
+		existed = "true"
+	}
+	body := implies(and(append([]string{existed}, excl...)...), eq(sel(cur, q), sel(old, q)))
+	f := fmt.Sprintf("(forall ((%s Int)) (! %s :pattern ((select %s %s))))", q, body, cur, q)
+	for _, t := range ts {
+		if t.lo != "" {
+			j := e.sc.freshName("q.j")
+			f = and(f, fmt.Sprintf("(forall ((%s Int)) (! (=> (or (< %s %s) (>= %s %s)) (= (select (select %s %s) %s) (select (select %s %s) %s))) :pattern ((select (select %s %s) %s))))", j, j, t.lo, j, t.hi, cur, t.ref, j, old, t.ref, j, cur, t.ref, j))
+		}
+	}
+	return f, true
 }
 
 // existedAtEntry: reference q denotes an object that existed when the function was entered.
